@@ -37,6 +37,9 @@ CLAIMED = {
  "C16": dict(text="Symbolic unit tangents, exact arccos comparison through monotonicity; the flagged-junction set, the excluded interfaces, the -1 re-insertion and the restricted system are each compared with an oracle computed from the tissue description, for every tangent configuration.",
              note="T3, K3 (K4 thorough); limits 0.5pi..pi, default, inf; cos(limit) is the nearest double; back-end contracts as in C05.",
              ref="3/C16"),
+ "C17": dict(text="The image is an arbitrary array of symbols, so the value returned by the real get_intensities for an interface is a term over pixels; it is compared with the window (mean of medians) and band (distinct pixels / length) statistics defined from the property, together with homogeneity, the uniform-image case, average normalisation and the write-back order.",
+             note="Interfaces are concrete integer polylines (5 shapes) placed by concrete rescale/offset; 14x14 (20x20) images; layers 0..1 (2 thorough); PIL's coordinate truncation modelled; three defects of the integrated / repeated-interface paths are recorded findings.",
+             ref="3/C17"),
  "C18": dict(text="Every cell pressure and interface tension is a symbol, so each entry of each grid cell's tensor produced by the real stress_tensor code is a linear form; symmetry, exact zero outside the radius, joint linearity, the isotropic limit and the pairing of eigen-systems with grid centres are decided for all assignments at once.",
              note="Geometry concrete (catalogue tissues with curved interfaces); np.linalg.eig replaced by a token; grid 1..4 quick, 1..12 thorough.",
              ref="3/C18"),
